@@ -656,12 +656,19 @@ def forall2(f, name="q"):
     return VBool(z3.ForAll([a, b], tobool(f(VInt(a), VInt(b)))))
 
 
-def _is_pat_term(t):
-    if not z3.is_app(t) or t.num_args() == 0:
+def _is_pat_term(t, top=True):
+    """usable as (part of) a pattern: an uninterpreted application / select at the top, and below it only
+    uninterpreted applications, selects, constants, numerals and +/-"""
+    if not z3.is_app(t):
         return False
     k = t.decl().kind()
-    return k in (z3.Z3_OP_UNINTERPRETED, z3.Z3_OP_SELECT, z3.Z3_OP_RECURSIVE) if hasattr(z3, "Z3_OP_RECURSIVE") \
-        else k in (z3.Z3_OP_UNINTERPRETED, z3.Z3_OP_SELECT)
+    if t.num_args() == 0:
+        return not top
+    ok_top = (z3.Z3_OP_UNINTERPRETED, z3.Z3_OP_SELECT)
+    ok_inner = ok_top + (z3.Z3_OP_ADD, z3.Z3_OP_SUB, z3.Z3_OP_UMINUS)
+    if k not in (ok_top if top else ok_inner):
+        return False
+    return all(_is_pat_term(ch, False) for ch in t.children())
 
 
 def _vars_of(t, acc):
